@@ -140,6 +140,10 @@ class Engine:
             pass
         ob = Obligation(self.verifying, group, cls, label, line, st.pc, goal,
                         props, dict(self.inputs))
+        rets = [n for n in st.notes if isinstance(n, str)
+                and n.startswith('return@')]
+        if rets:
+            ob.note = rets[-1]
         self.obligations.append(ob)
         return ob
 
@@ -184,6 +188,11 @@ class Engine:
                          z3.If(nfield(n, 'kind') == so.K_SEQ,
                                seq_len(nfield(n, 'items')) > 0,
                                seq_len(nfield(n, 'pairs')) > 0))
+        for p in self.models.plugins:
+            if hasattr(p, 'truth'):
+                r = p.truth(self, v, st)
+                if r is not None:
+                    return r
         raise Unsupported('truth of %r' % (v,))
 
     def node_term(self, v, st):
@@ -253,6 +262,11 @@ class Engine:
                               so.PV.is_pv_Str(pv),
                               nfield(n, 'val') == so.PV.pv_s(pv))
             raise Unsupported('node.value == %r' % (b,))
+        for p in self.models.plugins:
+            if hasattr(p, 'v_eq'):
+                r = p.v_eq(self, a, b, st)
+                if r is not None:
+                    return r
         ta, tb = self.as_ty(a), self.as_ty(b)
         if (isinstance(a, VTy) or isinstance(b, VTy)) and ta is not None \
                 and tb is not None:
@@ -395,6 +409,11 @@ class Engine:
         t = self.as_ty(v)
         if t is not None:
             return 'ty', t
+        for p in self.models.plugins:
+            if hasattr(p, 'elem_term'):
+                r = p.elem_term(self, v, st)
+                if r is not None:
+                    return r
         return None, None
 
     def len_of(self, v, st):
@@ -414,10 +433,11 @@ class Engine:
                                        else 'pairs')))
         if isinstance(v, VWrapSeq):
             return self.len_of(v.refs, st)
-        if isinstance(v, VTySet):
-            if v.card is not None:
-                return VInt(v.card)
-            raise Unsupported('len of symbolic type set')
+        for p in self.models.plugins:
+            if hasattr(p, 'len_of'):
+                r = p.len_of(self, v, st)
+                if r is not None:
+                    return r
         raise Unsupported('len of %s' % type(v).__name__)
 
     # ---------------------------------------------------------- name lookup
@@ -773,9 +793,10 @@ class Engine:
             return self.models.str_repeat(self, a, b, st)
         if isinstance(op, ast.Mod) and isinstance(a, VStr):
             raise Unsupported('%-formatting', node)
-        if isinstance(op, ast.BitOr) and isinstance(a, VTySet) and \
-                isinstance(b, VTySet):
-            return self.models.tyset_union(self, a, b, st)
+        if isinstance(op, ast.BitOr):
+            r = self.models.tyset_union(self, a, b, st)
+            if r is not None:
+                return r
         raise Unsupported('binop %s on %s,%s' % (
             type(op).__name__, type(a).__name__, type(b).__name__), node)
 
@@ -792,6 +813,11 @@ class Engine:
         return out
 
     def compare(self, op, a, b, st, node=None):
+        for p in self.models.plugins:
+            if hasattr(p, 'compare'):
+                r = p.compare(self, op, a, b, st)
+                if r is not None:
+                    return r
         if isinstance(op, (ast.Eq, ast.Is)):
             return self.v_eq(a, b, st)
         if isinstance(op, (ast.NotEq, ast.IsNot)):
